@@ -330,8 +330,18 @@ func c14ParseBack(f c14Fields, e c14Enc, fail func(site, aspect, detail string))
 	}
 }
 
+// c14Kept: a serialised credential retained across later cases: the blob slice exactly as ToBytes returned it, a private
+// copy of its bytes, and the object. Serialising or parsing OTHER credentials must leave all three unchanged.
+type c14Kept struct {
+	kc   *kcl.KeyCredential
+	blob []byte
+	copy []byte
+	smp  map[string]interface{}
+}
+
 func c14Cases(c *h.Ctx) error {
 	own := map[string]int{}
+	var kept []c14Kept
 	ncred, ncki, ndnb := 0, 0, 0
 	err := c.Lines(func(raw []byte) error {
 		var k c14Case
@@ -342,7 +352,7 @@ func c14Cases(c *h.Ctx) error {
 		case "cred":
 			ncred++
 			c.Case("cred:" + string(k.Id))
-			c14Cred(c, k, own)
+			c14Cred(c, k, own, &kept)
 		case "cki":
 			ncki++
 			c.Case("cki:" + h.Hex(k.V))
@@ -369,7 +379,7 @@ func c14Cases(c *h.Ctx) error {
 	return err
 }
 
-func c14Cred(c *h.Ctx, k c14Case, own map[string]int) {
+func c14Cred(c *h.Ctx, k c14Case, own map[string]int, kept *[]c14Kept) {
 	f := k.F
 	smp := map[string]interface{}{"cred": string(k.Id), "version": f.Ver, "modulus_bytes": len(f.Key.Mod), "exponent": c14BE(f.Key.Exp),
 		"primes": len(f.Key.P1) > 0, "device_id": h.Hex(f.Dev), "last_ticks": binary.LittleEndian.Uint64(f.Last),
@@ -460,6 +470,26 @@ func c14Cred(c *h.Ctx, k c14Case, own map[string]int) {
 	}
 	if len(f.Key.Mod) == 128 && f.Ver == 512 && len(f.Key.P1) == 0 {
 		c.Sample(map[string]interface{}{"kind": "cred", "input": smp, "blob_hex": h.Hex(blob), "covered_from": me.Cov})
+	}
+	// 5. credentials serialised earlier are values of their own: building, serialising and parsing THIS credential must not
+	// have changed their blobs or their integrity (a shared or pooled output buffer would)
+	for _, o := range *kept {
+		c.Exec(2)
+		if !bytes.Equal(o.blob, o.copy) {
+			c.Fail(c14KC+".ToBytes", "blob-changed-by-later-serialisation", fmt.Sprintf("the blob returned for an earlier credential now differs at %s after another credential was built and serialised",
+				c14FirstDiff(o.copy, o.blob)), map[string]interface{}{"earlier": o.smp, "later": smp})
+			break
+		}
+		still := false
+		if p := h.Guard(func() { still = o.kc.CheckIntegrity() }); p != "" || !still {
+			c.Fail(c14KC+".CheckIntegrity", "object-invalidated-by-later-serialisation", "an earlier credential fails its own integrity check after another credential was built and serialised "+p,
+				map[string]interface{}{"earlier": o.smp, "later": smp})
+			break
+		}
+	}
+	*kept = append(*kept, c14Kept{kc: kc, blob: blob, copy: append([]byte(nil), blob...), smp: smp})
+	if len(*kept) > 3 {
+		*kept = (*kept)[1:]
 	}
 }
 
